@@ -666,3 +666,122 @@ Proof.
   rewrite Hv. cbn [negb]. destruct (t =? 0) eqn:E0; [apply Z.eqb_eq in E0; contradiction|].
   rewrite take_enc_int, dec_int_enc_int; [|lia|apply in_sb_true in Hid; exact Hid]. rewrite E. reflexivity.
 Qed.
+
+(* ------------------------------------------------------------------ T4 generalised: an undeclared member ANYWHERE in a struct *)
+Lemma wbind_ext r k1 k2 : (forall b, k1 b = k2 b) -> wbind r k1 = wbind r k2.
+Proof. intros H. unfold wbind. destruct (snd r =? 0); [apply H|reflexivity]. Qed.
+
+Lemma wbind_status r k : snd r <> 0 -> wbind r k = r.
+Proof. intros H. unfold wbind. destruct (Z.eqb_spec (snd r) 0); [contradiction|reflexivity]. Qed.
+
+Lemma write_fields_unknown_skip {K} rec (lookup : K -> option (Z * adesc)) k x post : lookup k = None ->
+  forall pre b, write_fields false rec lookup b (pre ++ (k, x) :: post) = write_fields false rec lookup b (pre ++ post).
+Proof.
+  intros Hk. induction pre as [|m pre IH]; intros b; cbn [app write_fields fst snd].
+  - rewrite Hk. reflexivity.
+  - destruct (lookup (fst m)) as [[id fd]|]; [|apply IH]. apply wbind_ext. intros b2. apply IH.
+Qed.
+
+Lemma write_fields_unknown_error {K} rec (lookup : K -> option (Z * adesc)) k x post : lookup k = None ->
+  forall pre b, snd (write_fields true rec lookup b (pre ++ (k, x) :: post)) <> 0.
+Proof.
+  intros Hk. induction pre as [|m pre IH]; intros b; cbn [app write_fields fst snd].
+  - rewrite Hk. cbn [snd]. discriminate.
+  - destruct (lookup (fst m)) as [[id fd]|]; [|cbn [snd]; discriminate].
+    unfold wbind. destruct (Z.eqb_spec (snd (rec fd (b ++ dtype fd :: enc_int 2 id) (snd m))) 0); [apply IH|assumption].
+Qed.
+
+(* the members before the undeclared one are written without error: the status is exactly 1 (error) *)
+Lemma write_fields_unknown_error_exact {K} rec (lookup : K -> option (Z * adesc)) k x post : lookup k = None ->
+  forall pre b, snd (write_fields true rec lookup b pre) = 0 ->
+  snd (write_fields true rec lookup b (pre ++ (k, x) :: post)) = 1.
+Proof.
+  intros Hk. induction pre as [|m pre IH]; intros b H; cbn [app write_fields fst snd] in *.
+  - rewrite Hk. reflexivity.
+  - destruct (lookup (fst m)) as [[id fd]|]; [|discriminate H].
+    unfold wbind in *. destruct (snd (rec fd (b ++ dtype fd :: enc_int 2 id) (snd m)) =? 0) eqn:E; [apply IH; exact H|].
+    apply Z.eqb_neq in E. contradiction.
+Qed.
+
+Theorem write_unknown_member_anywhere cast n fs b :
+  (forall id x pre post, afby_id id fs = None ->
+     snd (write_any_desc cast true false (S n) (AStruct fs) b (GStructN (pre ++ (id, x) :: post))) <> 0 /\
+     (snd (write_any_desc cast true false (S n) (AStruct fs) b (GStructN pre)) = 0 ->
+      snd (write_any_desc cast true false (S n) (AStruct fs) b (GStructN (pre ++ (id, x) :: post))) = 1) /\
+     write_any_desc cast false false (S n) (AStruct fs) b (GStructN (pre ++ (id, x) :: post)) =
+     write_any_desc cast false false (S n) (AStruct fs) b (GStructN (pre ++ post))) /\
+  (forall nm x pre post, afby_name nm fs = None ->
+     snd (write_any_desc cast true true (S n) (AStruct fs) b (GMapS (pre ++ (nm, x) :: post))) <> 0 /\
+     (snd (write_any_desc cast true true (S n) (AStruct fs) b (GMapS pre)) = 0 ->
+      snd (write_any_desc cast true true (S n) (AStruct fs) b (GMapS (pre ++ (nm, x) :: post))) = 1) /\
+     write_any_desc cast false true (S n) (AStruct fs) b (GMapS (pre ++ (nm, x) :: post)) =
+     write_any_desc cast false true (S n) (AStruct fs) b (GMapS (pre ++ post))).
+Proof.
+  split.
+  - intros id x pre post H. assert (Hk : by_id fs id = None) by (unfold by_id; rewrite H; reflexivity).
+    cbn [write_any_desc]. split; [|split].
+    + rewrite wbind_status; apply (write_fields_unknown_error _ (by_id fs) id x post Hk).
+    + intros H0. unfold wbind in H0.
+      destruct (snd (write_fields true (write_any_desc cast true false n) (by_id fs) b pre) =? 0) eqn:E.
+      * apply Z.eqb_eq in E. pose proof (write_fields_unknown_error_exact (write_any_desc cast true false n) (by_id fs) id x post Hk pre b E) as H1.
+        rewrite wbind_status by (rewrite H1; discriminate). exact H1.
+      * apply Z.eqb_neq in E. contradiction.
+    + rewrite (write_fields_unknown_skip _ (by_id fs) id x post Hk). reflexivity.
+  - intros nm x pre post H. cbn [write_any_desc]. split; [|split].
+    + rewrite wbind_status; apply (write_fields_unknown_error _ (fun k => afby_name k fs) nm x post H).
+    + intros H0. unfold wbind in H0.
+      destruct (snd (write_fields true (write_any_desc cast true true n) (fun k => afby_name k fs) b pre) =? 0) eqn:E.
+      * apply Z.eqb_eq in E.
+        pose proof (write_fields_unknown_error_exact (write_any_desc cast true true n) (fun k => afby_name k fs) nm x post H pre b E) as H1.
+        rewrite wbind_status by (rewrite H1; discriminate). exact H1.
+      * apply Z.eqb_neq in E. contradiction.
+    + rewrite (write_fields_unknown_skip _ (fun k => afby_name k fs) nm x post H). reflexivity.
+Qed.
+
+Lemma read_fields_unknown_error skp rec dfs (gv : adesc -> tval -> gval) t id rest : forall pre fuel,
+  Forall (fun f : Z * tval => in_sb 16 (fst f) = true /\
+            exists nm fd, afby_id (fst f mod 65536) dfs = Some (nm, fd) /\
+                          forall r', rec fd (encode (snd f) ++ r') = Some (gv fd (snd f), r')) pre ->
+  type_valid t = true -> t <> 0 -> in_sb 16 id = true -> afby_id (id mod 65536) dfs = None ->
+  (length pre < fuel)%nat ->
+  read_fields skp true rec fuel dfs
+    (flat_map (fun f => type_of (snd f) :: enc_int 2 (fst f) ++ encode (snd f)) pre ++ t :: enc_int 2 id ++ rest) = None.
+Proof.
+  induction pre as [|f pre IH]; intros fuel H Hv Ht Hid E Hfu; (destruct fuel as [|fuel]; [cbn [length] in Hfu; lia|]).
+  - cbn [flat_map app read_fields]. rewrite Hv. cbn [negb]. destruct (Z.eqb_spec t 0); [contradiction|].
+    rewrite take_enc_int, dec_int_enc_int; [|lia|apply in_sb_true in Hid; exact Hid]. rewrite E. reflexivity.
+  - inversion H as [|? ? [Hfid (nm & fd & Ef & Hr)] Hrest]; subst. cbn [length] in Hfu.
+    cbn [flat_map]. rewrite <- !app_assoc. cbn [app read_fields].
+    rewrite type_of_type_valid, type_of_nonzero. cbn [negb]. rewrite <- app_assoc, take_enc_int.
+    rewrite dec_int_enc_int; [|lia|apply in_sb_true in Hfid; exact Hfid].
+    rewrite Ef, Hr, IH; auto. lia.
+Qed.
+
+(* a field the descriptor does not declare, after any number of declared ones, is an error of the reader under disallowUnknown *)
+Theorem read_unknown_field_anywhere u8 byname n dfs pre t id rest :
+  wf (VStruct pre) = true -> conf true (AStruct dfs) (VStruct pre) = true ->
+  gfresh (gval_of u8 byname (AStruct dfs) (VStruct pre)) = true ->
+  (depth (VStruct pre) <= S n)%nat -> (depth (VStruct pre) <= S max_skip_depth)%nat ->
+  type_valid t = true -> t <> 0 -> in_sb 16 id = true -> afby_id (id mod 65536) dfs = None ->
+  read_any_desc u8 true byname (S n) (AStruct dfs)
+    (flat_map (fun f => type_of (snd f) :: enc_int 2 (fst f) ++ encode (snd f)) pre ++ t :: enc_int 2 id ++ rest) = None.
+Proof.
+  intros Hw Hc Hg Hd Hm Hv Ht Hid E. unfold read_any_desc. cbn [read_any_gen].
+  cbn [depth] in Hd, Hm. apply le_S_n in Hd. apply le_S_n in Hm.
+  pose proof (fold_max_le (fun f : Z * tval => depth (snd f)) pre n Hd) as Hdep.
+  pose proof (fold_max_le (fun f : Z * tval => depth (snd f)) pre max_skip_depth Hm) as Hdm.
+  cbn [wf] in Hw. cbn [conf] in Hc. rewrite forallb_forall in Hw, Hc. rewrite Forall_forall in Hdep, Hdm.
+  rewrite (read_fields_unknown_error skip_go _ dfs (gval_of u8 byname)); auto.
+  - rewrite Forall_forall. intros f Hin. specialize (Hw f Hin). specialize (Hc f Hin).
+    apply andb_true_iff in Hw. destruct Hw as [Hfid Hwf]. split; [exact Hfid|].
+    destruct (afby_id (fst f mod 65536) dfs) as [[nm fd]|] eqn:Ef; [|discriminate].
+    exists nm, fd. split; [reflexivity|]. intros r'.
+    apply (read_any_gen_refines skip_go max_skip_depth skip_go_exact u8 true byname false); auto.
+    intros _. cbn [gval_of dfields] in Hg. destruct byname; cbn [gfresh] in Hg;
+    apply andb_true_iff in Hg; destruct Hg as [_ Hg]; rewrite forallb_forall in Hg.
+    + apply (Hg (nm, gval_of u8 true fd (snd f))). apply (members_in (fun _ n0 => n0) _ dfs pre f nm fd Hin Ef).
+    + apply (Hg (fst f mod 65536, gval_of u8 false fd (snd f))). apply (members_in (fun i _ => i) _ dfs pre f nm fd Hin Ef).
+  - rewrite !app_length. cbn [length].
+    pose proof (flat_map_length_ge (fun f : Z * tval => type_of (snd f) :: enc_int 2 (fst f) ++ encode (snd f)) pre
+      ltac:(intros; cbn [length]; lia)). lia.
+Qed.
